@@ -76,6 +76,12 @@ def vectors(ctx):
                 if pat == 3:
                     data = [255] * n
                 V.append({"fn": "uplink.uplink_icao", "frame": uplink_frame(data, a), "case": ["a", a, n, pat], "cs": rng.choice([0, 1])})
+    # address sweep: the recovered address is a function of the AP field alone once the data are fixed - many addresses, one
+    # short frame each (a defect confined to a small set of addresses, e.g. one table entry, is only met by breadth)
+    for _ in range(ctx.pick(40000, 2000000)):
+        a = rng.randrange(1 << 24)
+        data = [rng.randrange(256) for _ in range(4)]
+        V.append({"fn": "uplink.uplink_icao", "frame": uplink_frame(data, a), "case": ["sweep", a], "cs": 0})
     for _ in range(ctx.pick(2000, 100000)):
         f = gen.rand_frame(rng)
         V.append({"fn": rng.choice(["uplink.uplink_icao", "uplink.uf", "uplink.uplink_fields", "uplink.ic"]), "frame": f,
